@@ -11,8 +11,9 @@ construct becomes `Fn.unsupported "<reason>"` (its tie theorem, if it has one, t
 Normalisations (so that renamings do not disturb the tie):
   * the four parameters are called validator, value, instance, schema (by position);
   * every other local name is called x1, x2, … in the order of its first binding;
-  * a name bound exactly once, to a string constant, and used as the left operand of `%` is replaced
-    by the constant (`message = "…"; yield ValidationError(message % (…))`).
+  * a name bound exactly once, to a string constant — or assigned a string constant earlier in the same
+    block with nothing but `yield`s in between — and used as the left operand of `%` is replaced by the
+    constant (`message = "…"; yield ValidationError(message % (…))`).
 Part of the trusted base (DESIGN section 8).
 """
 import ast
@@ -184,7 +185,12 @@ class FnTranslator:
                 return ".contains true (%s) (%s)" % (a, b)
             raise Unsupported("comparison %s" % type(op).__name__)
         if isinstance(e, ast.Subscript):
-            if isinstance(e.slice, ast.Slice) or isinstance(e.slice, ast.Tuple):
+            if isinstance(e.slice, ast.Slice):
+                sl = e.slice
+                if sl.lower is not None and sl.upper is None and sl.step is None:
+                    return ".sliceFrom (%s) (%s)" % (self.ex(e.value), self.ex(sl.lower))
+                raise Unsupported("slice")
+            if isinstance(e.slice, ast.Tuple):
                 raise Unsupported("slice")
             return ".index (%s) (%s)" % (self.ex(e.value), self.ex(e.slice))
         if isinstance(e, ast.Call):
@@ -261,6 +267,11 @@ class FnTranslator:
                 raise Unsupported("loop target")
             return [x.id for x in t.elts]
 
+        if (isinstance(it, ast.Call) and isinstance(it.func, ast.Name) and it.func.id == "enumerate" and len(it.args) == 1
+                and len(it.keywords) == 1 and it.keywords[0].arg == "start"):
+            term = ".enumerateFrom (%s) (%s)" % (self.ex(it.args[0]), self.ex(it.keywords[0].value))
+            a, b = names(target, 2)
+            return term, ".two %s %s" % (lstr(self.bind(a)), lstr(self.bind(b)))
         if isinstance(it, ast.Call) and not it.keywords:
             f = it.func
             if isinstance(f, ast.Attribute) and f.attr == "items" and not it.args:
@@ -269,6 +280,10 @@ class FnTranslator:
                 return term, ".two %s %s" % (lstr(self.bind(a)), lstr(self.bind(b)))
             if isinstance(f, ast.Name) and f.id == "iteritems" and len(it.args) == 1:
                 term = ".items (%s)" % self.ex(it.args[0])
+                a, b = names(target, 2)
+                return term, ".two %s %s" % (lstr(self.bind(a)), lstr(self.bind(b)))
+            if isinstance(f, ast.Name) and f.id == "enumerate" and len(it.args) == 2:
+                term = ".enumerateFrom (%s) (%s)" % (self.ex(it.args[0]), self.ex(it.args[1]))
                 a, b = names(target, 2)
                 return term, ".two %s %s" % (lstr(self.bind(a)), lstr(self.bind(b)))
             if isinstance(f, ast.Name) and f.id == "enumerate" and len(it.args) == 1:
@@ -328,8 +343,16 @@ class FnTranslator:
             if isinstance(node, ast.Name) and node.id in self.fmt_consts:
                 self.fmt_used.add(node.id)
                 return self.fmt_consts[node.id]
+            if isinstance(node, ast.Name) and node.id in getattr(self, "block_consts", {}):
+                return self.block_consts[node.id]
             raise Unsupported("message is not a constant format")
 
+        if self.helper(m, "types_msg"):
+            a = self.plain(m, 2)
+            return ".yieldMsg \"types_msg\" \"\" %s" % llist([self.ex(x) for x in a])
+        if isinstance(m, ast.BinOp) and isinstance(m.op, ast.Mod) and self.helper(m.right, "extras_msg"):
+            a = self.plain(m.right, 1)
+            return ".yieldMsg \"extras_msg\" %s %s" % (lstr(fmt_of(m.left)), llist([self.ex(a[0])]))
         if isinstance(m, ast.BinOp) and isinstance(m.op, ast.Mod):
             fmt = fmt_of(m.left)
             args = list(m.right.elts) if isinstance(m.right, ast.Tuple) else [m.right]
@@ -338,12 +361,20 @@ class FnTranslator:
 
     def stmts(self, body):
         out = []
+        saved = getattr(self, "block_consts", {})
+        self.block_consts = {}      # names holding a string constant assigned earlier in THIS block (straight-line)
         for s in body:
             if isinstance(s, ast.Expr) and isinstance(s.value, ast.Constant) and isinstance(s.value.value, str):
                 continue            # docstring
             if isinstance(s, ast.Pass):
                 continue
             out.append(self.stmt(s))
+            if (isinstance(s, ast.Assign) and len(s.targets) == 1 and isinstance(s.targets[0], ast.Name)
+                    and isinstance(s.value, ast.Constant) and isinstance(s.value.value, str)):
+                self.block_consts[s.targets[0].id] = s.value.value
+            elif not (isinstance(s, ast.Expr) and isinstance(s.value, ast.Yield)):
+                self.block_consts = {}      # anything else may rebind: forget
+        self.block_consts = saved
         return llist(out)
 
     def stmt(self, s):
@@ -380,6 +411,195 @@ class FnTranslator:
         return ".body " + self.stmts(self.fn.body)
 
 
+class Fn2Translator(FnTranslator):
+    """the richer subset (lean/JS/Py/IR2.lean): locals holding lists of errors, iterators, error objects"""
+
+    def __init__(self, fn):
+        super().__init__(fn)
+        self.iter_vars = set()
+
+    def is_local(self, node):
+        return isinstance(node, ast.Name) and node.id in self.names and self.names[node.id] not in PARAMS
+
+    def cond2(self, e):
+        if isinstance(e, ast.Name) and self.is_local(e):
+            return ".truthyVar %s" % lstr(self.use(e.id))
+        if isinstance(e, ast.UnaryOp) and isinstance(e.op, ast.Not) and isinstance(e.operand, ast.Name) and self.is_local(e.operand):
+            return ".notC (.truthyVar %s)" % lstr(self.use(e.operand.id))
+        return ".c1 (%s)" % self.cond(e)
+
+    def iter2(self, it, target):
+        if isinstance(it, ast.Name) and it.id in self.iter_vars:
+            if not (isinstance(target, ast.Tuple) and len(target.elts) == 2 and all(isinstance(x, ast.Name) for x in target.elts)):
+                raise Unsupported("loop target over a stored iterator")
+            x = self.use(it.id)
+            a, b = target.elts
+            return ".var %s" % lstr(x), ".two %s %s" % (lstr(self.bind(a.id)), lstr(self.bind(b.id)))
+        term, pat = self.iter_(it, target)
+        return ".it1 (%s)" % term, pat
+
+    def descend_args(self, call):
+        t = self.descend(call)          # ".descend (i) (s) p sp"
+        assert t.startswith(".descend ")
+        return t[len(".descend "):]
+
+    def stmts(self, body):
+        out = []
+        saved = getattr(self, "block_consts", {})
+        self.block_consts = {}
+        for s in body:
+            if isinstance(s, ast.Expr) and isinstance(s.value, ast.Constant) and isinstance(s.value.value, str):
+                continue
+            if isinstance(s, ast.Pass):
+                continue
+            out.append(self.stmt(s))
+            if (isinstance(s, ast.Assign) and len(s.targets) == 1 and isinstance(s.targets[0], ast.Name)
+                    and isinstance(s.value, ast.Constant) and isinstance(s.value.value, str)):
+                self.block_consts[s.targets[0].id] = s.value.value
+            elif not (isinstance(s, ast.Expr) and isinstance(s.value, ast.Yield)):
+                self.block_consts = {}
+        self.block_consts = saved
+        return llist(out)
+
+    def fmt_and_args(self, m):
+        """(format, [args]) of `fmt % args` / a bare constant"""
+        def fmt_of(node):
+            if isinstance(node, ast.Constant) and isinstance(node.value, str):
+                return node.value
+            if isinstance(node, ast.Name) and node.id in self.fmt_consts:
+                return self.fmt_consts[node.id]
+            if isinstance(node, ast.Name) and node.id in getattr(self, "block_consts", {}):
+                return self.block_consts[node.id]
+            raise Unsupported("message is not a constant format")
+        if isinstance(m, ast.BinOp) and isinstance(m.op, ast.Mod):
+            args = list(m.right.elts) if isinstance(m.right, ast.Tuple) else [m.right]
+            return fmt_of(m.left), [self.ex(a) for a in args]
+        return fmt_of(m), []
+
+    def stmt(self, s):
+        if isinstance(s, ast.Break):
+            return ".brk"
+        if isinstance(s, ast.Return):
+            if s.value is not None:
+                raise Unsupported("return with a value")
+            return ".ret"
+        if isinstance(s, ast.Continue):
+            return ".cont"
+        if isinstance(s, ast.Assign):
+            if len(s.targets) != 1 or not isinstance(s.targets[0], ast.Name):
+                raise Unsupported("assignment target")
+            v, name = s.value, s.targets[0].id
+            # x = list(validator.descend(…))
+            if (isinstance(v, ast.Call) and isinstance(v.func, ast.Name) and v.func.id == "list" and len(v.args) == 1
+                    and not v.keywords and self.vcall(v.args[0], "descend")):
+                a = self.descend_args(v.args[0])
+                return ".assignDescendList %s %s" % (lstr(self.bind(name)), a)
+            # x = enumerate(e)
+            if (isinstance(v, ast.Call) and isinstance(v.func, ast.Name) and v.func.id == "enumerate" and len(v.args) == 1 and not v.keywords):
+                e = self.ex(v.args[0])
+                self.iter_vars.add(name)
+                return ".assignEnumerate %s (%s)" % (lstr(self.bind(name)), e)
+            # x = [elt for p in it if validator.is_valid(a, b)]
+            if (isinstance(v, ast.ListComp) and len(v.generators) == 1 and len(v.generators[0].ifs) == 1
+                    and self.vcall(v.generators[0].ifs[0], "is_valid") and not v.generators[0].is_async):
+                g = v.generators[0]
+                it, pat = self.iter2(g.iter, g.target)
+                a = self.plain(g.ifs[0], 2)
+                i_, s_ = self.ex(a[0]), self.ex(a[1])
+                elt = self.ex(v.elt)
+                return ".assignValidComp %s (%s) (%s) (%s) (%s) (%s)" % (lstr(self.bind(name)), pat, it, i_, s_, elt)
+            # x = ", ".join(repr(v) for v in y)
+            if (isinstance(v, ast.Call) and isinstance(v.func, ast.Attribute) and v.func.attr == "join"
+                    and isinstance(v.func.value, ast.Constant) and v.func.value.value == ", " and len(v.args) == 1
+                    and isinstance(v.args[0], ast.GeneratorExp) and len(v.args[0].generators) == 1):
+                g = v.args[0]
+                c = g.generators[0]
+                if (not c.ifs and isinstance(c.target, ast.Name) and isinstance(c.iter, ast.Name) and isinstance(g.elt, ast.Call)
+                        and isinstance(g.elt.func, ast.Name) and g.elt.func.id == "repr" and len(g.elt.args) == 1
+                        and isinstance(g.elt.args[0], ast.Name) and g.elt.args[0].id == c.target.id):
+                    y = self.use(c.iter.id)
+                    return ".assignJoinReprs %s %s" % (lstr(self.bind(name)), lstr(y))
+                raise Unsupported("join")
+            # x = ValidationError(fmt % args)
+            if (isinstance(v, ast.Call) and isinstance(v.func, ast.Name) and v.func.id == "ValidationError"
+                    and len(v.args) == 1 and not v.keywords):
+                fmt, args = self.fmt_and_args(v.args[0])
+                return ".newErr %s %s %s" % (lstr(self.bind(name)), lstr(fmt), llist(args))
+            e = self.ex(v)
+            return ".assign %s (%s)" % (lstr(self.bind(name)), e)
+        if isinstance(s, ast.If):
+            c = self.cond2(s.test)
+            return ".ifS (%s) %s %s" % (c, self.stmts(s.body), self.stmts(s.orelse))
+        if isinstance(s, ast.For):
+            if (not s.orelse and self.vcall(s.iter, "descend") and isinstance(s.target, ast.Name) and len(s.body) == 1
+                    and isinstance(s.body[0], ast.Expr) and isinstance(s.body[0].value, ast.Yield)
+                    and isinstance(s.body[0].value.value, ast.Name) and s.body[0].value.value.id == s.target.id):
+                return ".descend " + self.descend_args(s.iter)
+            it, pat = self.iter2(s.iter, s.target)
+            return ".forS (%s) (%s) %s %s" % (pat, it, self.stmts(s.body), self.stmts(s.orelse))
+        if isinstance(s, ast.Expr) and isinstance(s.value, ast.Yield):
+            y = s.value.value
+            if isinstance(y, ast.Name) and self.is_local(y):
+                return ".yieldVar %s" % lstr(self.use(y.id))
+            if (isinstance(y, ast.Call) and isinstance(y.func, ast.Name) and y.func.id == "ValidationError" and len(y.args) == 1
+                    and len(y.keywords) == 1 and y.keywords[0].arg == "context" and isinstance(y.keywords[0].value, ast.Name)):
+                ctx = self.use(y.keywords[0].value.id)
+                m = y.args[0]
+                if self.helper(m, "types_msg"):
+                    a = self.plain(m, 2)
+                    return ".yieldMsgCtx \"types_msg\" \"\" %s %s" % (llist([self.ex(x) for x in a]), lstr(ctx))
+                fmt, args = self.fmt_and_args(m)
+                return ".yieldErrCtx %s %s %s" % (lstr(fmt), llist(args), lstr(ctx))
+            return self.yield_error(y)
+        if isinstance(s, ast.Expr) and isinstance(s.value, ast.Call) and isinstance(s.value.func, ast.Attribute):
+            c, f = s.value, s.value.func
+            # x.extend(y) / x.append(e)
+            if isinstance(f.value, ast.Name) and self.is_local(f.value) and not c.keywords and len(c.args) == 1:
+                if f.attr == "extend" and isinstance(c.args[0], ast.Name) and self.is_local(c.args[0]):
+                    return ".extend %s %s" % (lstr(self.use(f.value.id)), lstr(self.use(c.args[0].id)))
+                if f.attr == "append":
+                    return ".append %s (%s)" % (lstr(self.use(f.value.id)), self.ex(c.args[0]))
+            # x._set(validator=…, validator_value=…, instance=…, schema=…)
+            if f.attr == "_set" and isinstance(f.value, ast.Name) and self.is_local(f.value) and not c.args:
+                kw = {k.arg: k.value for k in c.keywords}
+                if sorted(kw) == ["instance", "schema", "validator", "validator_value"]:
+                    return ".errSet %s (%s) (%s) (%s) (%s)" % (lstr(self.use(f.value.id)), self.ex(kw["validator"]),
+                                                                 self.ex(kw["validator_value"]), self.ex(kw["instance"]), self.ex(kw["schema"]))
+            # x.path.appendleft(e) / x.schema_path.extend([…])
+            if (isinstance(f.value, ast.Attribute) and isinstance(f.value.value, ast.Name) and self.is_local(f.value.value)
+                    and not c.keywords and len(c.args) == 1):
+                x = self.use(f.value.value.id)
+                if f.value.attr == "path" and f.attr == "appendleft":
+                    return ".errPathAppendLeft %s (%s)" % (lstr(x), self.ex(c.args[0]))
+                if f.value.attr == "schema_path" and f.attr == "extend" and isinstance(c.args[0], ast.List):
+                    return ".errSchemaPathExtend %s %s" % (lstr(x), llist([self.ex(e) for e in c.args[0].elts]))
+        if isinstance(s, ast.Expr) and isinstance(s.value, ast.YieldFrom) and self.vcall(s.value.value, "descend"):
+            return ".descend " + self.descend_args(s.value.value)
+        raise Unsupported("statement %s" % type(s).__name__)
+
+
+def translate_all2(repo=REPO):
+    """the functions outside the first subset, in the richer one (JS.Py.Fn2)"""
+    out = []
+    for fname in FILES:
+        path = os.path.join(repo, "jsonschema", fname)
+        tree = ast.parse(open(path, encoding="utf-8").read(), filename=path)
+        for node in tree.body:
+            if isinstance(node, ast.FunctionDef):
+                try:
+                    FnTranslator(node).translate()
+                    term = '.unsupported "translated in the first subset"'
+                except (Unsupported, RecursionError):
+                    try:
+                        term = Fn2Translator(node).translate()
+                    except Unsupported as u:
+                        term = ".unsupported %s" % lstr(str(u))
+                    except RecursionError:
+                        term = '.unsupported "too deep"'
+                out.append((node.name, term))
+    return out
+
+
 def translate_all(repo=REPO):
     fns = []
     for fname in FILES:
@@ -397,10 +617,10 @@ def translate_all(repo=REPO):
     return fns
 
 
-def render(fns):
+def render(fns, fns2=None):
     lines = ["/- GENERATED by harness/translate.py from the working tree's jsonschema/_validators.py and",
              "   _legacy_validators.py — do not edit. -/",
-             "import JS.Py.IR",
+             "import JS.Py.IR2",
              "namespace JS.Generated.Source",
              "open JS.Py",
              ""]
@@ -410,6 +630,13 @@ def render(fns):
             continue
         seen.add(name)
         lines.append("def src_%s : Fn :=\n  %s\n" % (name, term))
+    if fns2 is not None:
+        seen2 = set()
+        for name, term in fns2:
+            if name in seen2:
+                continue
+            seen2.add(name)
+            lines.append("def src2_%s : Fn2 :=\n  %s\n" % (name, term))
     lines.append("/-- every keyword function found in the two files, by name -/")
     lines.append("def table : List (String × Fn) :=\n  [" + ",\n   ".join('(%s, src_%s)' % (lstr(n), n) for n in seen_order(fns)) + "]")
     lines.append("")
@@ -426,15 +653,17 @@ def seen_order(fns):
 
 
 def main():
-    text = render(translate_all())
+    text = render(translate_all(), translate_all2())
     old = open(OUT, encoding="utf-8").read() if os.path.exists(OUT) else None
     if old != text:
         os.makedirs(os.path.dirname(OUT), exist_ok=True)
         with open(OUT, "w", encoding="utf-8") as f:
             f.write(text)
     if "-v" in sys.argv:
+        two = dict(translate_all2())
         for n, t in translate_all():
-            print(n, "UNSUPPORTED " + t if t.startswith(".unsupported") else "ok")
+            t2 = two.get(n, "")
+            print(n, "ok" if not t.startswith(".unsupported") else ("ok (second subset)" if not t2.startswith(".unsupported") else "UNSUPPORTED " + t + " / " + t2))
     return 0
 
 
